@@ -68,8 +68,8 @@ PROPS.update({
                        "thorough": [("sched", {"profile": "C03", "count": 1500, "per_case": 2000}), ("stress", {"count": 30000}), ("sched", {"profile": "C03deep", "count": 1500, "per_case": 400})]}, "design": "6/C03"},
     "C04": {"suites": {"quick": [("sched", {"profile": "C04", "count": 150, "per_case": 60}), ("stress", {"count": 1000})],
                        "thorough": [("sched", {"profile": "C04", "count": 1500, "per_case": 2000}), ("stress", {"count": 20000})]}, "design": "6/C04"},
-    "C16": {"suites": {"quick": [("sched", {"profile": "C04", "count": 60, "per_case": 40}), ("stress", {"count": 600}), ("seq", {"profile": "C05", "count": 600}), ("policy", {"profile": "C14", "count": 200}), ("sched", {"profile": "C14deep", "count": 30, "per_case": 30})],
-                       "thorough": [("sched", {"profile": "C04", "count": 1000, "per_case": 500}), ("stress", {"count": 20000}), ("seq", {"profile": "C05", "count": 20000}), ("policy", {"profile": "C14", "count": 10000}), ("sched", {"profile": "C14deep", "count": 1000, "per_case": 200})]},
+    "C16": {"suites": {"quick": [("sched", {"profile": "C04", "count": 60, "per_case": 40}), ("stress", {"count": 600}), ("seq", {"profile": "C05", "count": 600}), ("policy", {"profile": "C14", "count": 200}), ("sched", {"profile": "C14deep", "count": 30, "per_case": 30}), ("codec", {"profile": "C10", "count": 120, "tier": "quick"}), ("grid", {"count": 3000})],
+                       "thorough": [("sched", {"profile": "C04", "count": 1000, "per_case": 500}), ("stress", {"count": 20000}), ("seq", {"profile": "C05", "count": 20000}), ("policy", {"profile": "C14", "count": 10000}), ("sched", {"profile": "C14deep", "count": 1000, "per_case": 200}), ("codec", {"profile": "C10", "count": 1500, "tier": "thorough"}), ("grid", {"count": 60000})]},
             "design": "6/C16", "only_hangs": True},
 })
 
